@@ -154,3 +154,150 @@ func parseRegister(out string, layout string) ([]rDay, error) {
 	}
 	return days, nil
 }
+
+// parseCSV is an own RFC 4180 reader (LF or CRLF record ends accepted). It is strict:
+// a quote inside an unquoted field, or text after a closing quote, is an error.
+func parseCSV(s string) ([][]string, error) {
+	var recs [][]string
+	var rec []string
+	i := 0
+	n := len(s)
+	for i < n {
+		// one field
+		var field []byte
+		if s[i] == '"' {
+			i++
+			for {
+				if i >= n {
+					return nil, fmt.Errorf("unterminated quoted field in record %d", len(recs)+1)
+				}
+				if s[i] == '"' {
+					if i+1 < n && s[i+1] == '"' {
+						field = append(field, '"')
+						i += 2
+						continue
+					}
+					i++
+					break
+				}
+				field = append(field, s[i])
+				i++
+			}
+			if i < n && s[i] != ',' && s[i] != '\n' && s[i] != '\r' {
+				return nil, fmt.Errorf("text after closing quote in record %d", len(recs)+1)
+			}
+		} else {
+			for i < n && s[i] != ',' && s[i] != '\n' && s[i] != '\r' {
+				if s[i] == '"' {
+					return nil, fmt.Errorf("bare quote in unquoted field in record %d", len(recs)+1)
+				}
+				field = append(field, s[i])
+				i++
+			}
+		}
+		rec = append(rec, string(field))
+		if i >= n {
+			recs = append(recs, rec)
+			rec = nil
+			break
+		}
+		switch s[i] {
+		case ',':
+			i++
+			if i >= n { // trailing comma: empty last field, record not terminated
+				rec = append(rec, "")
+				recs = append(recs, rec)
+				rec = nil
+			}
+		case '\r':
+			if i+1 < n && s[i+1] == '\n' {
+				i += 2
+			} else {
+				return nil, fmt.Errorf("bare CR in record %d", len(recs)+1)
+			}
+			recs = append(recs, rec)
+			rec = nil
+		case '\n':
+			i++
+			recs = append(recs, rec)
+			rec = nil
+		}
+	}
+	if rec != nil {
+		recs = append(recs, rec)
+	}
+	return recs, nil
+}
+
+var totalsRowRe = regexp.MustCompile(`^ *(-?[0-9.]+) +(-?[0-9.]+) +(-?[0-9.]+)  (.*)$`)
+
+// parseTotals parses `report totals` into name -> (pos, neg, sum).
+func parseTotals(out string) (map[string]rTotal, []string, error) {
+	m := map[string]rTotal{}
+	var order []string
+	for ln, line := range splitLines(out) {
+		if ln == 0 {
+			if strings.Join(strings.Fields(line), " ") != "positive negative sum element" {
+				return nil, nil, fmt.Errorf("unexpected header %q", line)
+			}
+			continue
+		}
+		g := totalsRowRe.FindStringSubmatch(line)
+		if g == nil {
+			return nil, nil, fmt.Errorf("line %d %q: not a totals row", ln+1, line)
+		}
+		if _, dup := m[g[4]]; dup {
+			return nil, nil, fmt.Errorf("element %q listed twice", g[4])
+		}
+		m[g[4]] = rTotal{g[4], normNum(g[1]), normNum(g[2]), normNum(g[3])}
+		order = append(order, g[4])
+	}
+	return m, order, nil
+}
+
+// parseValueName parses rows "<number>\t<name>" (report quantity, element-total, reg -s -g).
+func parseValueName(out string) ([]rRow, error) {
+	var rows []rRow
+	for ln, line := range splitLines(out) {
+		i := strings.Index(line, "\t")
+		if i < 0 {
+			return nil, fmt.Errorf("line %d %q: no tab", ln+1, line)
+		}
+		rows = append(rows, rRow{line[i+1:], normNum(strings.TrimSpace(line[:i]))})
+	}
+	return rows, nil
+}
+
+type singleRow struct {
+	Date, Name, Pos, Neg, Sum string
+}
+
+// parseRegSingle parses `reg -s X`: "%s %20s %10.2f %10.2f =%10.2f" (the negative column is printed negated).
+func parseRegSingle(out string, dateLen int) ([]singleRow, error) {
+	var rows []singleRow
+	for ln, line := range splitLines(out) {
+		i := strings.LastIndex(line, " =")
+		if i < 0 || len(line) < dateLen+1 {
+			return nil, fmt.Errorf("line %d %q: not a single-element row", ln+1, line)
+		}
+		rest, f, ok := lastFields(line[:i], 2)
+		if !ok {
+			return nil, fmt.Errorf("line %d %q: not a single-element row", ln+1, line)
+		}
+		rows = append(rows, singleRow{Date: rest[:dateLen], Name: strings.TrimSpace(rest[dateLen:]), Pos: normNum(f[0]), Neg: normNum(f[1]), Sum: normNum(strings.TrimSpace(line[i+2:]))})
+	}
+	return rows, nil
+}
+
+// parseStats parses the stats report into label -> value text.
+func parseStats(out string) map[string]string {
+	m := map[string]string{}
+	for _, line := range splitLines(out) {
+		i := strings.Index(line, ":")
+		if i < 0 {
+			continue
+		}
+		m[strings.TrimSpace(line[:i])] = strings.TrimSpace(line[i+1:])
+	}
+	return m
+}
